@@ -51,6 +51,7 @@ var transTargets = []transTarget{
 	{"node/node.go", "Context", "deliverToChild", "loop0", "deliverBody"},
 	// C14
 	{"node/elasticsearch/elastic_index_client.go", "ElasticIndexClient", "handleErrorResponses", "loop1", "esItemBody"},
+	{"node/elasticsearch/elastic_index_client.go", "ElasticIndexClient", "handleErrorResponses", "tail0", "esTail"},
 	// C15
 	{"node/kafkaproducer/kafkaproducer.go", "KafkaProducer", "Process", "", "kpProcess"},
 	// C04 / C01 (root delivery, F11)
